@@ -73,6 +73,18 @@ CHECKS = {
         "re-encoding and error (which must name the property) with the model, and the generator's validity label with the Coq validator.",
    note="As C06. PARTIAL: `validates s j -> decode succeeds and re-encodes to the kept part` is not a theorem in this round.",
    ref="DESIGN.md section 4 (C06-C08)"),
+ "C01": dict(
+   technique="Coq proof of the output gate (success => every written file parses and is a gofmt fixpoint, no clash of declared names; a broken file is an error) and of the identifier layer (PublicFieldName yields an exported Go identifier) + exhaustive compile matrix of the dialect's feature cells with the real generator and Go toolchain (PARTIAL: type-correctness is enumerated, not proved)",
+   text="C01_success_is_formatted / C01_broken_is_failure: over the model of Generate's gate (render all, clash check, imports.Process, write) "
+        "a success has written exactly the rendered files, each parsing and gofmt-stable, and any unparsable file, name clash or formatting "
+        "error is a failure. C01_field_name_is_identifier / C01_field_name_nonempty: the Go name derived from an ASCII spec name is made of "
+        "identifier characters, starts upper-case, and is non-empty iff the name has a letter. Tie: ~3000 one-feature documents (parameter, "
+        "JSON-position, response-header, raw-body, name-shape, text-shape, route, security, status-key cells) and seeded compositions x flag "
+        "combinations are generated by the real generator; every success is judged by go/parser, gofmt idempotence, an import check and go build; "
+        "PublicFieldName is compared with the extracted model on seeded names.",
+   note="PARTIAL by construction: Go's type system is not formalised; 'the files type-check as one package' is decided cell by cell by the Go "
+        "toolchain on the real output. The matrix is finite; compositions are sampled.",
+   ref="DESIGN.md section 4 (C01)"),
  "C02": dict(
    technique="Coq proof over a model of the generated response types and their method sets (inline responses, component responses with UsedIn, alias chains; Go's interface-satisfaction rule) that the implementers of an operation's response interface are exactly its documented responses, and that Write emits the documented status/Content-Type/headers/body + reflection over the compiled packages (Implements) and recorded wire responses",
    text="C02_exact_implementers / C02_nothing_else: for every response document with distinct operation, component and type names and no "
